@@ -56,8 +56,11 @@ var AssembleOutputRegex = regexp.MustCompile(`^\s*##!=>\s*(.*)$`)
 
 // RuleRxRegex matches a full SecRule line with @rx.
 // Everything up to the start of the regular expression is captured in group 1,
-// the end of the line after the regular expression is captured in group 2.
-var RuleRxRegex = regexp.MustCompile(`(.*"!?@rx )(.*)(" \\)`)
+// the regular expression in group 2, and the end of the line after the regular
+// expression in group 3.
+// The operator is the first `"@rx ` on the line (the regular expression itself can
+// contain that text) and the rest of the line is retained (e.g., a carriage return).
+var RuleRxRegex = regexp.MustCompile(`(.*?"!?@rx )(.*)(" \\.*)`)
 
 // SecRuleRegex matches any SecRule line.
 var SecRuleRegex = regexp.MustCompile(`\s*SecRule`)
